@@ -81,6 +81,8 @@ pub struct Profile {
     pub label_diverts: bool,
     /// multi-line sequence blocks `{ stopping: - a - b }` (C01)
     pub block_sequences: bool,
+    /// `{ var: - 0: ... - else: ... }` switch blocks (C01)
+    pub switch_blocks: bool,
 }
 
 impl Default for Profile {
@@ -112,6 +114,7 @@ impl Default for Profile {
             nested_inline: false,
             label_diverts: false,
             block_sequences: false,
+            switch_blocks: false,
         }
     }
 }
@@ -959,6 +962,29 @@ impl<'a> Gen<'a> {
         match self.t.pick(10) {
             0 | 1 | 2 | 3 => Stmt::Line(self.text_line(sc, !in_func)),
             4 | 5 => self.assign(sc),
+            6 if self.p.switch_blocks && !self.vars_of(sc, Ty::Int).is_empty() && self.t.chance(1, 3) => {
+                let vars = self.vars_of(sc, Ty::Int);
+                let var = vars[self.t.pick(vars.len())].clone();
+                let nc = 1 + self.t.pick(3);
+                let mut cases = vec![];
+                let mut used = vec![];
+                for _ in 0..nc {
+                    let v = self.t.range(0, 4);
+                    if used.contains(&v) {
+                        continue;
+                    }
+                    used.push(v);
+                    let n = 1 + self.t.pick(2);
+                    let body = (0..n).map(|_| self.simple_stmt(sc, depth + 1)).collect();
+                    cases.push((v, body));
+                }
+                let els = if self.t.chance(1, 2) {
+                    Some(vec![self.simple_stmt(sc, depth + 1)])
+                } else {
+                    None
+                };
+                Stmt::Switch(var, cases, els)
+            }
             6 => {
                 // block conditional
                 let nb = 1 + self.t.pick(2);
